@@ -220,6 +220,16 @@ def tree_case(ctx, mr, case):
             reqs += [(li, b) for b in range(min(nb, 24))]
     impl = []
     for li, b in reqs:
+        if rng.random() < 0.35:
+            # a look at some block of some level with the one-level check only (a documented option of get_block): whatever it
+            # answers, it is not an answer to the deep question and must not become one
+            lj = rng.choice([1, 1, 2, 0, 3])
+            nbj = (len(levels[lj]) + bss[lj] - 1) // bss[lj]
+            try:
+                tree.get_block(lj + 1, rng.randrange(nbj), verify=True, deep_verify=False)
+            except Exception:
+                pass
+            ctx.stat('one_level_lookups')
         v = tree.get_block(li + 1, b, verify=True, deep_verify=True)[1]
         impl.append('T' if v is True else 'F' if v is False else 'N')
     line = 'ivfc ' + ' '.join(zhex(b) for b in bss) + ' ' + ' '.join(hx(d) for d in levels) + ' ' + hx(b''.join(master)) + ' ' + \
